@@ -90,3 +90,14 @@ pub fn memfs_snapshot(vfs: &Memfs) -> MemfsSnapshot {
         files,
     }
 }
+
+/// Build a detached in-memory entry of the given kind with exactly the given mode bits
+pub fn memfs_entry(path: &str, dir: bool, link_target: Option<&str>, mode: u32) -> RvResult<VfsEntry> {
+    use crate::sys::{Entry, MemfsEntry};
+    let mut opts = MemfsEntry::opts(path);
+    opts = if dir { opts.dir() } else { opts.file() };
+    if let Some(target) = link_target {
+        opts = opts.link_to(target)?;
+    }
+    Ok(opts._mode(mode).build().upcast())
+}
